@@ -8,7 +8,9 @@ CFG = dict(
     design_ref="DESIGN.md 6.16",
     technique="Coq proof (ASCII model of handle_segment: upper/lower/capitalise/pascal, refutation memory, consistent resolution, "
               "ignore_words guard, one crawl with threaded memory) + call-by-call correspondence through a cfg(sqruff_verif) "
-              "recorder in cp01.rs + direct observation of fix_string / lint(fix) / fix(fix) / protected leaves",
+              "recorder in cp01.rs + direct observation of fix_string / lint(fix) / fix(fix) / protected leaves through every public "
+              "entry point of the Linter (lint_string, lint_paths on a file and on a directory, render_string+lint_rendered, "
+              "lint_string_wrapped)",
     level_text="C16_case_only, C16_concrete_idempotent, C16_pass_case_only and C16_concrete_pass_stable are closed Coq theorems for "
                "every ASCII token, token sequence, memory, ignore list and option list: a fix changes only letter case, and for "
                "upper/lower/capitalise/pascal a second crawl reports and changes nothing. For consistent the frozen-verdict "
@@ -22,7 +24,9 @@ CFG = dict(
                "visited is observed, not modelled. Convergence of consistent within the loop's three crawls is observed only.",
     rule="hand-written statements mixing the five element kinds x every uniform policy and random per-kind policies x dialects x "
          "ignore_words; corpus files and case scrambles of them (upper, lower, per-char, per-word) under random per-kind "
-         "policies and ignore_words drawn from the file; each fixed with only CP01-CP05 selected. Every handle_segment call "
+         "policies and ignore_words drawn from the file; each fixed with only CP01-CP05 selected, through lint_string and through "
+         "each other public entry point (lint_paths(file), lint_paths(dir with a sibling file), render_string+lint_rendered, "
+         "lint_string_wrapped), fix / lint-of-fix / fix-of-fix going through the same entry point. Every handle_segment call "
          "(raw, policy, option list, memory before/after, result) is a correspondence case, deduplicated per file; "
          "non-trivial = the call reported a fix; distinct = distinct (args, expected) terms",
     assumptions=["tokens handed to handle_segment are ASCII (others are counted and excluded from the model comparison)",
